@@ -60,6 +60,15 @@ def conf(n, k, seed):
     return np.array([[float('%.3f' % v) for v in row] for row in a])
 
 
+def conf_target(sp, k, seed):
+    """target conformations; in number 2 (the one the map is normally built from) the first target atom sits exactly
+    on the second reference atom of reference conformation 1 (a bead placed on an atom: its projection is zero)"""
+    a = conf(sp['tn'], k, seed)
+    if k == 2 and sp['rn'] >= 2:
+        a[0] = conf(sp['rn'], 1, seed)[1]
+    return a
+
+
 class World:
     """the real objects parallel to the specification's objects"""
 
@@ -84,8 +93,8 @@ class World:
             n, bonds, res, nm = sp['tn'], sp['tb'], sp['tres'], 'TGT'
         names = ['%s%d' % ('C' if which == 'ref' else 'N', i + 1) for i in range(n)]
         residues = [('%s%d' % ('RR' if which == 'ref' else 'TT', r), r) for r in res]
-        return synth.make_molecule(os.path.join(self.workdir, '%s%d_%s' % (which, self.n, tag)), nm, names, bonds, conf(n, k, self.seed),
-                                   residues=residues)
+        pos = conf(n, k, self.seed) if which == 'ref' else conf_target(sp, k, self.seed)
+        return synth.make_molecule(os.path.join(self.workdir, '%s%d_%s' % (which, self.n, tag)), nm, names, bonds, pos, residues=residues)
 
     def nres(self, which):
         return len(set(self.sp['rres' if which == 'ref' else 'tres']))
@@ -121,7 +130,7 @@ class World:
 
     def expected_coord(self, tok, which):
         if tok[0] == 0:
-            return conf(self.sp['rn'] if which == 'ref' else self.sp['tn'], tok[1], self.seed), 0.0
+            return (conf(self.sp['rn'], tok[1], self.seed) if which == 'ref' else conf_target(self.sp, tok[1], self.seed)), 0.0
         key = (tok[1], tok[2], tok[3])
         if key not in self.oracle:
             from gaddlemaps import ExchangeMap
@@ -201,8 +210,14 @@ def replay(beh, workdir, seed):
                     pass
             elif op == 'MutC':
                 kind = w.kinds[o]
-                n = w.sp['rn'] if which[kind] == 'ref' else w.sp['tn']
-                w.objs[o].atoms_positions = conf(n, h['coord'][o][1], w.seed)
+                new = conf(w.sp['rn'], h['coord'][o][1], w.seed) if which[kind] == 'ref' else conf_target(w.sp, h['coord'][o][1], w.seed)
+                if step % 2:
+                    w.objs[o].atoms_positions = new
+                else:
+                    # in place, through the arrays the atoms hold: whatever shares an array with this object moves too
+                    for atom, p in zip(w.objs[o], new):
+                        arr = atom.position
+                        arr[...] = p
             elif op == 'MutR':
                 w.set_rids(w.objs[o], h['rids'][o])
         except Exception as exc:
